@@ -331,7 +331,13 @@ func (o *Obligation) smtMode(withModel, groundOnly bool) string {
 	r := o.run
 	var b strings.Builder
 	b.WriteString("(set-option :produce-models true)\n(set-logic ALL)\n")
-	b.WriteString(r.prog.World.decls.dump())
+	wd := r.prog.World.decls.dump()
+	if strings.Contains(wd, "(assert") {
+		// world-level text is shared by every query; an axiom there would make a query depend on which units were
+		// processed earlier (order-dependent, hence unstable, results)
+		panic("qv internal error: world-level declarations contain an assertion")
+	}
+	b.WriteString(wd)
 	b.WriteString(r.extraDeclText())
 	b.WriteString(r.decls.dump())
 	gdecl, gextra, goal := "", []string(nil), o.Goal
